@@ -1811,6 +1811,33 @@ pub fn run_c15(ctx: &Ctx) -> i32 {
                 return Err("Decode of the parsed frame differs from the input".into());
             }
             let _ = f.count_bits();
+            // the same subframes under a VARIABLE-blocking header: start-sample numbers of every
+            // coded length up to 2^36 - 1 (the frame number stops at 31 bits, this field does not)
+            let start: u64 = match num % 7 {
+                0 => (1u64 << 31) - 1,
+                1 => 1u64 << 31,
+                2 => (1u64 << 32) + 5,
+                3 => (1u64 << 35) + num as u64,
+                4 => (1u64 << 36) - 1,
+                5 => num as u64,
+                _ => (num as u64) << 5,
+            };
+            let (mut h, subs) = f.into_parts();
+            h.set_frame_offset(flacenc::component::FrameOffset::StartSample(start));
+            let fv = flacenc::component::Frame::new(h, subs.into_iter()).map_err(|e| format!("variable-blocking: Frame::new refuses the parts of an encoded frame: {e}"))?;
+            let bv = enc::to_bytes(&fv).map_err(|e| format!("variable-blocking: {e:?}"))?;
+            let mut p = flacenc::component::parser::frame::<NomErr<'_>>(&si, true);
+            let (rest, f3) = p(&bv).map_err(|e| format!("variable-blocking: parser::frame rejects the frame (start sample {start}): {}", format!("{e:?}").chars().take(120).collect::<String>()))?;
+            if !rest.is_empty() {
+                return Err(format!("variable-blocking: {} bytes left unconsumed", rest.len()));
+            }
+            f3.verify().map_err(|e| format!("variable-blocking: parsed frame does not verify: {e}"))?;
+            if enc::to_bytes(&f3).map_err(|e| format!("{e:?}"))? != bv {
+                return Err(format!("variable-blocking: re-serialised frame differs (start sample {start})"));
+            }
+            if f3.decode() != a.samples {
+                return Err("variable-blocking: Decode of the parsed frame differs from the input".into());
+            }
             Ok(())
         });
         out.evaluations += 1;
